@@ -4,3 +4,4 @@ pub mod merkle;
 pub mod model;
 pub mod parse;
 pub mod sha256;
+pub mod sighash;
